@@ -23,7 +23,7 @@ ANCHORS = [
     "stereomolgraph.experimental:JSONHandler._stereo_from_payload",
 ]
 REQUIRED_ANCHORS = ANCHORS
-REQUIRED = ["roundtrips", "has_fleeting_bond", "has_placeholder", "has_none_parity", "has_change", "empty_graph", "scale_cases", "reloads_after_edit"] + [f"desc:{c}" for c in sem.CLASSES]
+REQUIRED = ["roundtrips", "has_fleeting_bond", "has_placeholder", "has_none_parity", "has_change", "empty_graph", "scale_cases", "reloads_after_edit", "with_bond_attributes"] + [f"desc:{c}" for c in sem.CLASSES]
 
 
 def _big_ids(rng, pg):
@@ -46,7 +46,7 @@ def gen_cases(ctx):
         if (i // 4) % 60 == 7:
             pg = sem.pg_empty(cls)
         else:
-            pg = gen.random_pg(rng, cls, n_range=(1, 12) if ctx.tier == "quick" else (1, 20), alphabet=rng.choice([gen.SMALL, gen.WIDE, tuple(range(1, 119))]), p_none=rng.choice([0, 0.3]), p_stereo=0.8, p_change=0.5, p_role=0.5, one_sided_bond_desc=0.3, max_deg=rng.choice([3, 4, 5, 6, 6]))
+            pg = gen.random_pg(rng, cls, n_range=(1, 12) if ctx.tier == "quick" else (1, 20), alphabet=rng.choice([gen.SMALL, gen.WIDE, tuple(range(1, 119))]), p_none=rng.choice([0, 0.3]), p_stereo=0.8, p_change=0.5, p_role=0.5, one_sided_bond_desc=0.3, max_deg=rng.choice([3, 4, 5, 6, 6]), attrs=(i // 4) % 4 == 1)  # a quarter with further atom / bond attributes (labels, charges, bond orders): not carried by the format, but the atoms and bonds that bear them are
             pg = _big_ids(rng, pg)
         yield {"cls": cls, "pg": pg_to_json(pg), "bseed": rng.randrange(1 << 30)}
     for k, nsz, cls, seed in gen.scale_specs(ctx, rng):
@@ -67,6 +67,8 @@ def check_case(ctx, case):
         ctx.case()
         return
     ctx.count(f"via:{via}")
+    if any(set(v) - {"reaction"} for v in pg["bonds"].values()):
+        ctx.count("with_bond_attributes")
     before = snap(g)
     descs = list(pg["astereo"].values()) + list(pg["bstereo"].values()) + [d for v in list(pg["achange"].values()) + list(pg["bchange"].values()) for d in v.values()]
     flags = []
